@@ -1597,6 +1597,12 @@ where
                     // CopyDone or CopyFail
                     // Copy is done, successfully or not.
                     'c' | 'f' => {
+                        // Outside of a COPY the server silently ignores these messages and sends
+                        // no reply: forwarding one would leave us waiting on the server forever.
+                        if !server.in_copy_mode() {
+                            continue;
+                        }
+
                         // We may already have some copy data in the buffer, add this message to buffer
                         self.buffer.put(&message[..]);
 
